@@ -151,7 +151,7 @@ def spice(rng, prog, ci, mfs):
             out.append({'op': 'set', 'k': 'sur', 'v': {'big': ['str', mfs + 5, 'x']}, 'surrogate': True})
         elif r < 0.18:
             out.append({'op': 'set', 'k': 'strm', 'v': {'big': ['bytes', 50, 's%d' % i]}, 'read': True,
-                        'stream_fail': rng.choice((None, 0, 10, 30))})
+                        'stream_fail': rng.choice((None, 0, 10, 30)), 'stream_fail_kind': rng.choice((None, None, 'base'))})
         elif r < 0.26:
             out.append({'op': 'set', 'k': rng.choice(('a', 'b', 'big')), 'v': {'big': ['bytes', rng.choice((3000, 9000)), 'L%d-%d' % (ci, i)]}})
         elif r < 0.31:
@@ -245,7 +245,7 @@ def run_case(case):
                 probes['unencodable'] = 1
             elif h['op'].get('badarg'):
                 probes['bad_argument'] = 1
-            elif r[1] == 'OSError' and h['op'].get('stream_fail') is not None:
+            elif r[1] in ('OSError', 'StreamInterrupt') and h['op'].get('stream_fail') is not None:
                 probes['stream_error'] = 1
         if r and r[0] == 'ok' and isinstance(r[1], str) and r[1].startswith('abort:'):
             probes['block_aborted'] = 1
